@@ -7,7 +7,10 @@ from .kernel_params import bodies_module
 
 
 def main():
-    stage = C.stage_specs(C.scratch('setup'), {'KernelBodies.tla': bodies_module()})
+    from . import floor_mc
+    cfgs = floor_mc.design_family(0)[:3]
+    stage = C.stage_specs(C.scratch('setup'), {'KernelBodies.tla': bodies_module(),
+                                               'FloorCfgs.tla': floor_mc.render_cfgs(cfgs)})
     bad = 0
     mods = sorted(f for f in os.listdir(stage) if f.endswith('.tla'))
     for m in mods:
